@@ -100,6 +100,7 @@ package vm
 //@ pred mSP(m *memory.Type) int := field[int](m, "sp")
 //@ pred mStack(m *memory.Type, i int) value.Type := field[[]value.Type](m, "stack")[i]
 //@ pred mTopFP(m *memory.Type) int := field[[]int](m, "fp")[len(field[[]int](m, "fp"))-2]
+//@ pred mTopLE(m *memory.Type) int := field[[]int](m, "fp")[len(field[[]int](m, "fp"))-1]
 //@ pred mTopCls(m *memory.Type) memory.Frame := field[[]memory.Frame](m, "closure")[len(field[[]memory.Frame](m, "closure"))-1]
 //@ pred mGlobal(m *memory.Type, name string) value.Type := ite(mapdom(field[map[string]value.Type](m, "global"), name), field[map[string]value.Type](m, "global")[name], value.Nil)
 // operand(m, ds, k, a, d): the value an operand of kind k / address a denotes when d stack operands of the
@@ -228,6 +229,37 @@ package vm
 //@        && mStack(m, mSP(m)-1) == value.NewInt(iter(ip))
 //@        && len(field[[]int](m, "fp")) == iter(len(field[[]int](m, "fp"))) + 2 && mTopFP(m) == iter(mSP(m)) - iter(stackOps1((*cs)[ip])) - iter(bca((*cs)[ip], 1))
 //@        && len(field[[]memory.Frame](m, "closure")) == iter(len(field[[]memory.Frame](m, "closure"))) + 1 && same(mTopCls(m), iter(*fst2(opnd0(cs, ds, m, ip).ToFunction()).Frame))
+// RET: "returns from a function call pushing src0 after rolling back the stack". Inside a call the frame and the
+// closure frame of the call are popped, the value lands where the frame began and execution continues after the
+// CALL whose return address the frame holds; at top level the stack is reset to the value and the run ends. The
+// value is src0 itself unless it is a function value (whose captured frame RET replaces by a copy: C04 clauses).
+//@   loop 0 step[isa_ret_same_context;C01] iter(bcop((*cs)[ip])) == bytecode.RET ==> m == iter(m) && tmp == iter(tmp)
+//@   loop 0 step[isa_ret_value;C01,C04] iter(bcop((*cs)[ip])) == bytecode.RET ==> (!iter(snd2(opnd0(cs, ds, m, ip).ToFunction())) ==> mStack(m, mSP(m)-1) == iter(opnd0(cs, ds, m, ip)))
+//@   loop 0 step[isa_ret_top_level;C01,C09] iter(bcop((*cs)[ip])) == bytecode.RET ==> (iter(len(field[[]int](m, "fp"))) < 2 ==> mSP(m) == 1 && ip == len(*cs))
+//@   loop 0 step[isa_ret_frame_popped;C01,C04,C09,C18] iter(bcop((*cs)[ip])) == bytecode.RET ==> (iter(len(field[[]int](m, "fp"))) >= 2 ==> mSP(m) == iter(mTopFP(m)) + 1 && len(field[[]int](m, "fp")) == iter(len(field[[]int](m, "fp"))) - 2)
+//@   loop 0 step[isa_ret_closure_popped;C01,C04,C09,C18] iter(bcop((*cs)[ip])) == bytecode.RET ==> (iter(len(field[[]int](m, "fp"))) >= 2 ==> len(field[[]memory.Frame](m, "closure")) == iter(len(field[[]memory.Frame](m, "closure"))) - 1)
+//@   loop 0 step[isa_ret_return_address;C01,C18] iter(bcop((*cs)[ip])) == bytecode.RET ==> (iter(len(field[[]int](m, "fp"))) >= 2 ==> ip == iter(fst2(mStack(m, mTopLE(m)).ToInt())) + 1)
+// The coroutine instructions (C02: a for loop and its iterator are two contexts that hand control back and forth).
+// YIELD "moves src0 in tmp, swaps the current context with its parent, and pushes src0 in the new context": the
+// yielding context is suspended at the YIELD, the parent continues after the instruction it was suspended at.
+// (Contexts form a tree - no context is its own parent or child; that is an antecedent here, not an invariant.)
+//@   loop 0 step[isa_yield;C01,C02,C12,C03] iter(bcop((*cs)[ip])) == bytecode.YIELD ==> tmp == iter(opnd0(cs, ds, m, ip))
+//@        && (iter(ctxp.parent) == nil ==> ctxp == iter(ctxp) && m == iter(m) && ip == iter(ip) + 1 && mSP(m) == iter(mSP(m)) - iter(stackOps1((*cs)[ip])))
+//@        && (iter(ctxp.parent) != nil && iter(ctxp.parent) != iter(ctxp) ==> ctxp == iter(ctxp.parent) && m == iter(ctxp.parent.m) && ip == iter(ctxp.parent.ip) + 1
+//@             && iter(ctxp).ip == iter(ip) && iter(ctxp).m == iter(m) && mStack(m, mSP(m)-1) == iter(opnd0(cs, ds, m, ip)))
+// SCONT "switches context to src0": the running context is suspended at the SCONT, the child registered under the
+// id (at this call depth) continues after the instruction it was suspended at.
+//@   loop 0 step[isa_scont;C01,C02] iter(bcop((*cs)[ip])) == bytecode.SCONT && iter(imget[*context](ctxp.children, hashContext(m, bca((*cs)[ip], 0))) != ctxp) ==> tmp == iter(tmp)
+//@        && ctxp == iter(imget[*context](ctxp.children, hashContext(m, bca((*cs)[ip], 0)))) && iter(ctxp).ip == iter(ip) && iter(ctxp).m == iter(m)
+//@        && m == iter(imget[*context](ctxp.children, hashContext(m, bca((*cs)[ip], 0))).m) && ip == iter(imget[*context](ctxp.children, hashContext(m, bca((*cs)[ip], 0))).ip) + 1
+// CCONT "jumps relative to ip + src0 in current context, and switches to a new context that continues from old ip":
+// the forking context will resume at ip + src0, the new context runs the instructions that follow the CCONT.
+//@   loop 0 step[isa_ccont;C01,C02] iter(bcop((*cs)[ip])) == bytecode.CCONT ==> tmp == iter(tmp) && ip == iter(ip) + 1
+//@        && iter(ctxp).ip == iter(ip) + iter(bca((*cs)[ip], 0)) - 1 && ctxp.parent == iter(ctxp) && ctxp.m == m
+// DCONT "switches context to parent, then deletes contexts between src0 and src1"; RCONT only deletes.
+//@   loop 0 step[isa_dcont_rcont;C01,C02,C09] (iter(bcop((*cs)[ip])) == bytecode.RCONT ==> tmp == iter(tmp) && ip == iter(ip) + 1 && ctxp == iter(ctxp) && m == iter(m))
+//@        && (iter(bcop((*cs)[ip])) == bytecode.DCONT ==> tmp == iter(tmp) && ip == iter(ip) + 1
+//@             && (iter(ctxp.parent) == nil ==> ctxp == iter(ctxp) && m == iter(m)) && (iter(ctxp.parent) != nil ==> ctxp == iter(ctxp.parent) && m == iter(ctxp.parent.m)))
 //@   loop 0 step[isa_stack;C01,C09,C12] (iter(bcop((*cs)[ip])) == bytecode.PUSH ==> ip == iter(ip) + 1 && m == iter(m) && tmp == iter(tmp)
 //@             && mSP(m) == iter(mSP(m)) - iter(stackOps1((*cs)[ip])) + 1 && mStack(m, mSP(m)-1) == iter(opnd0(cs, ds, m, ip)))
 //@        && (iter(bcop((*cs)[ip])) == bytecode.PUSHTMP ==> ip == iter(ip) + 1 && m == iter(m) && tmp == iter(tmp) && mSP(m) == iter(mSP(m)) + 1 && mStack(m, mSP(m)-1) == iter(tmp))
@@ -260,6 +292,9 @@ package vm
 // The same for closures that leave inside a returned array (C04 says "returned directly or inside an
 // array"). This does NOT hold: RET only looks at the returned value itself - an open, listed finding.
 //@   atcall m.PopClosure() with (callee_m *memory.Type) requires[returned_array_closures_detached;C04] arrayDetached(val)
+// ... nor a closure handed to the consumer of a generator: the memory of an exhausted generator context is recycled
+// by the next fork (memory.Clone(reuse)). This does NOT hold: YIELD hands the value over as it is - an open, listed finding.
+//@   atcall m.Push(tmp) with (callee_v value.Type) requires[yielded_closure_detached;C04,C03] iter(bcop((*cs)[ip])) == bytecode.YIELD ==> detached(callee_v)
 //
 // C18/C02: a forked context, new or recycled, is a child of the context that forked it and runs on the cloned memory.
 //@   atcall ctxp.children.Put(ctxHash, childCtx) with (callee_val *context) requires[fork_parent;C18,C02] callee_val.parent == ctxp && callee_val.m == m
@@ -271,6 +306,16 @@ package vm
 // taken more than one line from standard input; what it holds is lost with it, so the reader READ
 // uses must outlive the instruction: it is the reader the machine was created with.
 //@   atcall ReadString with (callee_b *bufio.Reader) requires[reader_outlives_read;C17] callee_b == old(vm.stdin)
+//
+// C17: write prints its argument as it is (the text toa would give), nothing else.
+//@   atcall fmt.Print with (callee_a []any) requires[write_prints_the_value;C17] len(callee_a) == 1 && eqv(callee_a[0], any(iter(opnd0(cs, ds, m, ip))))
+//
+// C08: an instruction that raises a runtime error has stored nothing: no global and no stack slot below the stack
+// pointer differs from what it was when the instruction started (it may have consumed stack operands; the accumulator
+// is a local of Run and does not survive the error).
+//@   atcall vm.dumpStack( with (callee_ip int) requires[failed_instruction_stored_nothing;C08,C01] m == iter(m) && mSP(m) <= iter(mSP(m))
+//@        && (forall k string :: mapdom(field[map[string]value.Type](m, "global"), k) == iter(mapdom(field[map[string]value.Type](m, "global"), k)) && field[map[string]value.Type](m, "global")[k] == iter(field[map[string]value.Type](m, "global")[k]))
+//@        && (forall i :: 0 <= i && i < mSP(m) ==> mStack(m, i) == iter(mStack(m, i)))
 //
 // C19: the report is about the instruction that failed.
 //@   atcall vm.dumpStack with (callee_ip int, callee_err error) requires[report_points_at_failure;C19] callee_ip == ip && callee_err != nil
